@@ -509,6 +509,9 @@ def v1_hasher(ctx):
         atoms_ = C.atoms_of(wl[0].test)
         bounded = [a for a in atoms_ if isinstance(a, ast.Compare) and len(a.ops) == 1 and isinstance(a.ops[0], (ast.Lt, ast.Gt, ast.LtE, ast.GtE, ast.NotEq)) and PL in (norm(a.left), norm(a.comparators[0]))]
         nf_at = [i for i, a in enumerate(atoms_) if norm(a).endswith("next_file()")]
+        counted = [a for a in atoms_ if isinstance(a, ast.Compare) and len(a.ops) == 1 and isinstance(a.ops[0], (ast.Gt, ast.NotEq, ast.GtE, ast.Lt)) and isinstance(a.left, ast.Name)
+                   and isinstance(a.comparators[0], ast.Constant) and a.comparators[0].value in (0, 1)] + [a for a in atoms_ if isinstance(a, ast.Name)]
+        bounded = bounded or counted          # `missing > 0`: a count-down of what the piece still lacks
         if bounded and nf_at and isinstance(wl[0].test, ast.BoolOp) and isinstance(wl[0].test.op, ast.And) and atoms_.index(bounded[0]) < nf_at[0]:
             # another way of tracking how much of the piece is filled (a fill counter instead of len()): not modelled
             ctx.undecided("C01.6", hp, "stitching loop `%s` tracks the filled part of the piece in a way the extractor does not model" % norm(wl[0].test), wl[0].test)
